@@ -35,6 +35,11 @@ pub fn handle(_tier: &str, _task: &Value, _io: &mut WorkerIo) -> (Value, bool) {
     log.push(format!("sweeps {}->{}", before, after));
     log.push(format!("get s after sweep {}", show(&srv.call(&mut c, &["GET", "s"]).unwrap())));
     log.push(format!("raw: {}", srv.h.storage.verif_raw_dump(0, 0)));
+    log.push(show(&srv.call(&mut c, &["SET", "a", "x", "EX", "100"]).unwrap()));
+    for _ in 0..3 {
+        vtime::real_sleep_us(3000);
+        log.push(format!("pttl a {} mono {}", show(&srv.call(&mut c, &["PTTL", "a"]).unwrap()), vtime::mono_ns()));
+    }
     // throughput
     let r0 = vtime::real_now_ns();
     for i in 0..20000 {
